@@ -520,4 +520,17 @@ def c05_naive(src, display="UTC"):
     p = subprocess.run([sys.executable, "-c", code], capture_output=True, text=True, env=dict(os.environ, FLOW_RECORD_TZ=tz))
     return {"violates": p.returncode != 0, "detail": f"FLOW_RECORD_TZ={tz}: naive {src} is held as {(p.stdout + p.stderr).strip()[-300:]}"}
 
-CALLS = {"c05_naive": c05_naive, "c05_digest_bytes": c05_digest_bytes, "c05_iadd": c05_iadd, "c05_history_pair": c05_history_pair, "c05_grouped_assign": c05_grouped_assign, "c05_naive_own_class": c05_naive_own_class, "c05_nonintegral": c05_nonintegral, "c05_json_writable": c05_json_writable, "c05_cross_value": c05_cross_value, "c05_assign": c05_assign, "c05_expect": c05_expect, "c05_range": c05_range, "c05_outcome": c05_outcome, "c05_cross_types": c05_cross_types, "c05_digest": c05_digest, "c05_legacy_list": c05_legacy_list, "c05_list_pair": c05_list_pair, "c05_init": c05_init, "c05_replace": c05_replace, "c05_capture": c05_capture, "c05_decode": c05_decode}
+
+def c05_defaults():
+    from flow.record import RecordDescriptor
+
+    D = RecordDescriptor("c05/def", [("string[]", "tags"), ("digest", "dg"), ("uint16[]", "ports"), ("varint", "n")])
+    before, a = D(n=0), D(n=1)
+    a.tags.append("suspicious")
+    a.dg.md5 = "d41d8cd98f00b204e9800998ecf8427e"
+    a.ports.append(80)
+    after = D(n=2)
+    got = [(len(r.tags), r.dg.md5, len(r.ports), r.tags is a.tags, r.dg is a.dg) for r in (before, after)]
+    return {"violates": any(g != (0, None, 0, False, False) for g in got), "detail": f"records that never set the fields hold (len(tags), dg.md5, len(ports), same list, same digest) = {got!r}"}
+
+CALLS = {"c05_defaults": c05_defaults, "c05_naive": c05_naive, "c05_digest_bytes": c05_digest_bytes, "c05_iadd": c05_iadd, "c05_history_pair": c05_history_pair, "c05_grouped_assign": c05_grouped_assign, "c05_naive_own_class": c05_naive_own_class, "c05_nonintegral": c05_nonintegral, "c05_json_writable": c05_json_writable, "c05_cross_value": c05_cross_value, "c05_assign": c05_assign, "c05_expect": c05_expect, "c05_range": c05_range, "c05_outcome": c05_outcome, "c05_cross_types": c05_cross_types, "c05_digest": c05_digest, "c05_legacy_list": c05_legacy_list, "c05_list_pair": c05_list_pair, "c05_init": c05_init, "c05_replace": c05_replace, "c05_capture": c05_capture, "c05_decode": c05_decode}
